@@ -195,6 +195,10 @@ func ServerScenario(t *rapid.T, p Profile) sim.Scenario {
 			st.window = map[string]bool{}
 			sc.Steps = append(sc.Steps, sim.Step{Op: "advance", D: 200})
 			continue
+		case sc.Cfg.AllowPush && p.PPush > 0 && npush > 0 && roll >= 100-p.PPush-p.PPush/2-1 && roll < 100-p.PPush:
+			// the peer answers one of the callbacks (or answers it again): a record
+			// that holds nothing but a reply has nothing to report
+			step = sim.Step{Op: "cbreply", Push: "push", K: rapid.IntRange(1, npush).Draw(t, "cbk"), Out: pick(t, "cbout", []string{"result", "result", "error"}), D: 1}
 		case sc.Cfg.AllowPush && p.PPush > 0 && roll >= 100-p.PPush:
 			// a server callback that stays outstanding: its id (1, 2, 3 ...) lives in
 			// a space of its own and must not interfere with the peer's request ids
@@ -220,7 +224,9 @@ func ServerScenario(t *rapid.T, p Profile) sim.Scenario {
 			st.Pending = append(st.Pending[:j:j], st.Pending[j+1:]...)
 			step = sim.Step{Op: "release", K: k, Out: pick(t, "outcome", outcomes)}
 		default:
-			step = sim.Step{Op: "send", Rec: engine.Bytes(st.Record(t, p))}
+			// (legal white space in front of a record changes nothing)
+			lead := pick(t, "leadws", []string{"", "", "", "", "\n", "\r\n", " \t", "\n\n "})
+			step = sim.Step{Op: "send", Rec: engine.Bytes(lead + st.Record(t, p))}
 		}
 		step.Burst = rapid.IntRange(0, 99).Draw(t, "burst") < p.PBurst
 		if !step.Burst {
